@@ -81,7 +81,7 @@ def run(ctx: Ctx) -> None:
     thorough = ctx.tier == "thorough"
     slices = ["A", "B", "C", "D", "E", "F"]
     mo = {"F": 2 if thorough else 1}
-    every = 1 if thorough else int(os.environ.get("VERIF_C17_EVERY", "2"))
+    every = 1 if thorough else int(os.environ.get("VERIF_C17_EVERY", "3"))
     by_kind: dict = {}
     unsupported: dict = {}
     for kind_tla in ("dataclass", "typeddict", "sqlalchemy"):
